@@ -348,6 +348,17 @@ def rule_T9_hp(tree: Tree) -> RuleResult:
     want = sorted(["7 + len(dcid) + len(scid)", "packet_len_len + token_len_len + token_len", "packet_len_len", "1 + len(guessed_dcid)"])
     r.ob(forms == want, Finding("T9h", f"{QD}:extract_quic_packet:pn-offset",
                                 f"packet-number offset: long header 7+dcid+scid (+ token length field + token + length field for Initial; + length field for Handshake/0-RTT), short header 1+dcid; found {forms}", m.line(ex.node)))
+    # the byte-wise helpers keep the length of their (shorter) operand: the unmasked packet-number field must stay pn_len bytes long — its length is the
+    # encoded length that A.3 and the AAD use — so no round trip through an integer (which drops leading zero bytes)
+    for hn, opcls in (("byte_xor", ast.BitXor), ("byte_and", ast.BitAnd)):
+        r.instances += 1
+        hf = tree.func(QD, hn)
+        zips = [c for c in body_walk(hf.node) if isinstance(c, ast.Call) and dotted(c.func) == "zip" and len(c.args) == 2]
+        ops = [b for b in body_walk(hf.node) if isinstance(b, ast.BinOp) and isinstance(b.op, opcls)]
+        conv = [c for c in body_walk(hf.node) if isinstance(c, ast.Call) and (dotted(c.func) or "").split(".")[-1] in ("from_bytes", "to_bytes", "bit_length")]
+        r.ob(len(zips) == 1 and len(ops) == 1 and not conv, Finding("T9h", f"{QD}:{hn}:bytewise",
+                                                                  f"{hn} must combine its operands byte by byte over zip(a, b) (result as long as the shorter operand); found zip={len(zips)}, "
+                                                                  f"operators={len(ops)}, integer conversions={len(conv)} — an integer round trip shortens a packet-number field with leading zero bytes", m.line(hf.node)))
     # remove_header_protection
     rh = tree.func(QD, "remove_header_protection")
     cfg = cfg_of(rh.node)
@@ -825,4 +836,13 @@ def rule_quic_handshake_state(tree: Tree) -> RuleResult:
         facts = [(src(e, 80), t) for e, t in cfg3.facts_at(cfg3.node_of(ic[0]))]
         ok = facts == [("'Initial' not in list(self.decryptors.keys())", True)] or facts == [("'Initial' in list(self.decryptors.keys())", False)] or facts == [("'Initial' not in self.decryptors", True)]
     r.ob(ok, Finding("QHS", f"{QS}:QuicSession.handle_packet:initial-keys", "Initial keys are derived from the destination connection ID of the first packet seen while no Initial decryptor is installed (AES-128 parameters)", hp.module.line(hp.node)))
+    # 0-RTT keys: the suite of early data is that of the resumed session, which the ClientHello does not name — it is *not* "the first suite offered"
+    # (RFC 8446 §4.2.10: the PSK's cipher suite; a GREASE value or a preferred-but-different suite may come first)
+    r.instances += 1
+    ch = tree.func("quic.quic_tls_parser", "QuicTlsSession.handle_client_hello")
+    first_offer = [n for n in body_walk(ch.node) if isinstance(n, ast.Assign) and dotted(n.targets[0]) == "self.ciphersuite" and isinstance(n.value, ast.Subscript)
+                   and isinstance(n.value.slice, ast.Slice) and try_fold(n.value.slice.lower) in (0, None) and try_fold(n.value.slice.upper) == 2 and "suite" in src(n.value.value).lower()]
+    r.ob(not first_offer, Finding("QHS", "quic.quic_tls_parser:QuicTlsSession.handle_client_hello:early-suite-first-offered",
+                                  f"`{src(first_offer[0], 70) if first_offer else ''}`: the keys for 0-RTT packets are derived for the first cipher suite of the ClientHello's list; a client that "
+                                  f"lists another suite (or a GREASE value) first sends 0-RTT data under the resumed session's suite and that datagram is not exported", ch.module.line(ch.node)))
     return r
